@@ -786,3 +786,7 @@ S("C13", "catcher-skips-close-when-response-closed", "C01-R6")
 S("C18", "key-freezes-mapping-keys-only", "C18-R4")
 for _n in (1, 3, 4, 5, 6):
     B("C01", _n)
+for _n in range(1, 7):
+    B("C04", _n)
+for _n in range(1, 7):
+    B("C02", _n)
